@@ -1,5 +1,5 @@
 #!/usr/bin/env python3
-"""tryedit.py <edit-id|seed-id> <prop>: apply a selftest edit / seed to a scratch copy and show the check's output."""
+"""tryedit.py <edit-id|seed-id|patch file|dir with patch.diff> <prop>: apply a selftest edit / seed to a scratch copy and show the check's output."""
 import json, os, subprocess, sys, tempfile, shutil
 V = os.path.dirname(os.path.dirname(os.path.abspath(__file__)))
 eid, prop = sys.argv[1], sys.argv[2]
@@ -7,7 +7,10 @@ scratch = tempfile.mkdtemp(prefix="lr-try-", dir="/var/tmp")
 try:
     subprocess.check_call(["rsync", "-a", "--exclude", "target", "--exclude", ".git", "/repo/", scratch + "/"])
     sd = os.path.join(V, "seeded", eid)
-    if os.path.isdir(sd):
+    if os.path.isfile(eid) or os.path.isfile(os.path.join(eid, "patch.diff")):
+        pf = eid if os.path.isfile(eid) else os.path.join(eid, "patch.diff")
+        subprocess.check_call(["patch", "-p1", "-s", "-f", "-d", scratch, "-i", os.path.abspath(pf)])
+    elif os.path.isdir(sd):
         subprocess.check_call(["patch", "-p1", "-s", "-f", "-d", scratch, "-i", os.path.join(sd, "patch.diff")])
     else:
         e = [x for x in json.load(open(os.path.join(V, "selftest", "edits.json"))) if x["id"] == eid][0]
